@@ -167,3 +167,24 @@ Proof.
   - destruct (nextPrime_variants_agree a i low Hl Hi) as [E1 E2]. destruct Hnext as [->| ->]; assumption.
   - apply IH; [exact (N.le_lt_trans _ _ _ (land_pred_le a) Ha)|]. apply Nat.succ_lt_mono. exact Hf.
 Qed.
+
+(** ---- words of 8 bytes *)
+Lemma byte_high_bits b i : b < 256 -> 8 <= i -> N.testbit b i = false.
+Proof.
+  intros Hb Hi. destruct (N.eq_dec b 0) as [->|Hne]; [apply N.bits_0|]. apply N.bits_above_log2.
+  apply N.lt_le_trans with 8; [|exact Hi]. apply N.log2_lt_pow2; [lia|exact Hb].
+Qed.
+
+Lemma word_bit bs : Forall (fun b => b < 256) bs -> forall i : nat,
+  N.testbit (word_of_bytes bs) (N.of_nat i) = N.testbit (nth (i / 8) bs 0) (N.of_nat (i mod 8)).
+Proof.
+  induction bs as [|b r IH]; intros Hb i; cbn [word_of_bytes].
+  - rewrite N.bits_0. destruct (i / 8)%nat; cbn [nth]; rewrite N.bits_0; reflexivity.
+  - inversion Hb as [|? ? Hb1 Hbr]; subst. rewrite N.lor_spec.
+    destruct (Nat.lt_ge_cases i 8) as [Hlt|Hge].
+    + rewrite N.shiftl_spec_low by lia. rewrite orb_false_r. rewrite (Nat.div_small i 8 Hlt), (Nat.mod_small i 8 Hlt). reflexivity.
+    + rewrite (byte_high_bits b (N.of_nat i) Hb1 ltac:(lia)), orb_false_l. rewrite N.shiftl_spec_high by lia.
+      replace (N.of_nat i - 8) with (N.of_nat (i - 8)) by lia. rewrite (IH Hbr (i - 8)%nat).
+      assert (E : i = (i - 8 + 1 * 8)%nat) by lia. rewrite E at 3 4. rewrite Nat.div_add, Nat.mod_add by lia.
+      replace ((i - 8) / 8 + 1)%nat with (S ((i - 8) / 8)) by lia. reflexivity.
+Qed.
